@@ -66,8 +66,8 @@ type Trip struct {
 	Route                  int
 	Service                string
 	Headsign, Short, Block string
-	Direction              int // -1 unspecified, 0, 1
-	Wheelchair, Bikes      int // 0..2
+	Direction              int    // -1 unspecified, 0, 1
+	Wheelchair, Bikes      int    // 0..2
 	Shape                  string // "" none
 }
 
@@ -88,7 +88,7 @@ type StopTime struct {
 	Pickup, DropOff         int // 0..3
 	ContPickup, ContDropOff int // 0..3
 	Dist                    *float64
-	Timepoint               int // 0,1
+	Timepoint               int  // 0,1
 	ArrFmt2, DepFmt2        bool // two-digit hours
 }
 
@@ -119,6 +119,8 @@ var Zones = []string{
 var nastyTexts = []string{
 	"", "Main St", "a,b", `say "hi"`, "line1\nline2", " lead", "trail ", "Ünïcödé ✓", "日本", "x", "10", "0", "-1",
 	"a;b|c", "'single'", `""`, ",", "tab\there", "http://example.com/?a=1&b=2", "FFFFFF", "N", "é",
+	// a bare carriage return inside a (necessarily quoted) cell is kept verbatim by a CSV reader; it is not a line ending
+	"old\rmac",
 }
 
 var idAtoms = []string{"a", "b", "A", "1", "10", "2", "01", "s", "st", "stop", "R", "M", "x y", "a,b", `q"`, "é", "ü", "-", "_", "#", "9"}
